@@ -351,9 +351,13 @@ async fn finalize_artifact(
     stored_bytes: u64,
     bytes_total: u64,
 ) -> Option<StreamArtifactRef> {
-    let (Some(_file), Some(tmp_path), Some(hasher)) = (file, tmp_path, hasher) else {
+    let (Some(mut file), Some(tmp_path), Some(hasher)) = (file, tmp_path, hasher) else {
         return None;
     };
+    // tokio's File completes writes in the background: wait for the last one before the blob is
+    // published under its content hash, or a reader can find fewer bytes than were hashed.
+    let _ = file.flush().await;
+    drop(file);
 
     let digest = hasher.finalize();
     let id = hex::encode(digest);
